@@ -156,20 +156,22 @@ def run(rep: Report, tier: str) -> None:
     for qn in (f"{IO}.register_dataframes", f"{IO}._load_parquet"):
         g = P.func(qn)
         ins = [s for s in sqlx.iter_skeletons(P) if s.func is g and s.text.lstrip().upper().startswith("INSERT INTO")]
-        if len(ins) != 1:
+        if not ins:
             raise AnalysisError(f"{qn}: INSERT INTO skeleton not found")
-        t = ins[0].text
-        mm = re.match(r'\s*INSERT INTO "' + sqlx.HOLE_L + r'[^' + sqlx.HOLE_R + r']+' + sqlx.HOLE_R + r'" \(' + sqlx.HOLE_L + r'(\w+)' + sqlx.HOLE_R + r'\)\s*SELECT', t)
-        rep.instance("R33.2", f"insert-column-list/{g.name}", nontrivial=True, sample={"sql": t[:120]})
-        if not mm:
-            rep.add(Finding("R33.2", f"R33.2/insert-column-list/{g.name}", g.module.rel, ins[0].line, g.qualname,
-                            f"INSERT without an explicit column list: `{t[:80]}` binds the SELECT list to table columns by position"))
-            continue
-        cl = single_def(g, mm.group(1))
-        ok = cl is not None and "for c in components" in src(cl) and '"' in src(cl)
-        if not ok:
-            rep.add(Finding("R33.2", f"R33.2/insert-column-names/{g.name}", g.module.rel, ins[0].line, g.qualname,
-                            f"INSERT column list `{mm.group(1)}` is not the quoted component names of the structure: {src(cl) if cl is not None else '?'}"))
+        for one in ins:
+            t = one.text
+            mm = re.match(r'\s*INSERT INTO "' + sqlx.HOLE_L + r'[^' + sqlx.HOLE_R + r']+' + sqlx.HOLE_R + r'" \(' + sqlx.HOLE_L + r'(\w+)' + sqlx.HOLE_R + r'\)\s*SELECT', t)
+            rep.instance("R33.2", f"insert-column-list/{g.name}" + (f"@{ins.index(one)}" if len(ins) > 1 else ""), nontrivial=True, sample={"sql": t[:120]})
+            if not mm:
+                rep.add(Finding("R33.2", f"R33.2/insert-column-list/{g.name}", g.module.rel, one.line, g.qualname,
+                                f"INSERT without an explicit column list: `{t[:80]}` binds the SELECT list to table columns by position: a DataFrame / file whose columns are in "
+                                f"another order than the data structure gets its values stored under the wrong components"))
+                continue
+            cl = single_def(g, mm.group(1))
+            ok = cl is not None and "for c in components" in src(cl) and '"' in src(cl)
+            if not ok:
+                rep.add(Finding("R33.2", f"R33.2/insert-column-names/{g.name}", g.module.rel, one.line, g.qualname,
+                                f"INSERT column list `{mm.group(1)}` is not the quoted component names of the structure: {src(cl) if cl is not None else '?'}"))
     # _build_dataframe_select_columns selects every source column by its quoted name
     bd = P.func(f"{IO}._build_dataframe_select_columns")
     sks = [s for s in sqlx.iter_skeletons(P) if s.func is bd and "CAST(" in s.text]
@@ -180,6 +182,11 @@ def run(rep: Report, tier: str) -> None:
         if f'"{sqlx.HOLE_L}comp_name{sqlx.HOLE_R}"' not in s.text and f"{sqlx.HOLE_L}col_as_varchar{sqlx.HOLE_R}" not in s.text:
             rep.add(Finding("R33.2", "R33.2/dataframe/select-by-name", bd.module.rel, s.line, bd.qualname,
                             f"source column not referenced by its quoted name in `{s.text[:80]}`"))
+
+    # ---- R33.5 viral propagation over a group: only the (listed) enumerated fold gathers values in input order ----
+    rep.rule("R33.5", "viral propagation: aggregate-function rules over a group use the order-independent aggregate, not a fold over list(col)")
+    from sa.checks.c28 import group_forms_by_rule_kind
+    group_forms_by_rule_kind(P, rep, "R33.5")
 
     # ---- R33.3 -----------------------------------------------------------------------------------------------
     nfun = 0
